@@ -175,6 +175,39 @@ theorem doc_cascaded_is_winner (doc : Doc) (e : DocElem) (pseudo : Option String
   simp only
   rw [lookup_map_get, cascade_refines_spec]
 
+/-! ### grid track sizes -/
+
+/-- `_compute_track_breadth`: the three keywords and flexible lengths (`fr`) are their own computed
+value; every other `<length-percentage>` goes through `length` (so `em` / `rem` / `ex` / `ch` are
+resolved against the same references as everywhere else). -/
+theorem track_breadth_spec (env : Env) (q : Rat) (u : String) :
+    computeTrackBreadth env (.kw "auto") = .ok (some (.kw "auto")) ∧
+    computeTrackBreadth env (.kw "min-content") = .ok (some (.kw "min-content")) ∧
+    computeTrackBreadth env (.kw "max-content") = .ok (some (.kw "max-content")) ∧
+    computeTrackBreadth env (.dim q "fr") = .ok (some (.dim q "fr")) ∧
+    (u ≠ "fr" → computeTrackBreadth env (.dim q u) = (length env (.dim q u)).map some) := by
+  refine ⟨rfl, rfl, rfl, ?_, ?_⟩
+  · simp [computeTrackBreadth]
+  · intro hu
+    simp [computeTrackBreadth, hu]
+
+/-- A track list keeps its shape: line names (even positions) are copied, one computed size per
+size (odd positions). -/
+theorem track_list_one_size (env : Env) (fuel : Nat) (names1 names2 : Val) (q : Rat) (u : String) (hu : u ≠ "fr") :
+    trackSizeFrom env (fuel + 4) [names1, .dim q u, names2] 0 =
+      (length env (.dim q u)).map (fun l => [names1, l, names2]) := by
+  have hb : (u == "fr") = false := by simpa using hu
+  simp only [trackSizeFrom, computeTrackBreadth, hb]
+  cases length env (.dim q u) <;> simp [bind, Except.bind, pure, Except.pure, Except.map]
+
+/-- `grid-template-*: none` and `subgrid …` are their own computed value. -/
+theorem grid_template_keywords (env : Env) (rest : List Val) :
+    gridTemplate env (.kw "none") = .ok (.kw "none") ∧
+    gridTemplate env (.tup (.kw "subgrid" :: rest)) = .ok (.tup (.kw "subgrid" :: rest)) := by
+  constructor
+  · rfl
+  · simp [gridTemplate, Val.isKw, headName, bind, Except.bind, pure, Except.pure]
+
 example : hasLinkType ["Alternate", "STYLESHEET"] "stylesheet" = true ∧
     hasLinkType ["Alternate", "STYLESHEET"] "alternate" = true := by decide
 private def exampleSheet : DocSheet :=
@@ -186,6 +219,17 @@ private def exampleEnv : Env :=
     parentFontWeight := none, exRatio := 1 / 2, chRatio := 1 / 2, get := fun _ => .ok (.kw "x"),
     specified := fun _ => .ok (.kw "x"), isRoot := true, pseudo := false }
 example : (lengthTuple exampleEnv (.tup [.dim 1 "em", .dim 2 "px"])).toOption = some (.tup [.num 20, .num 2]) := by
+  decide +kernel
+-- `[a] 2em [b] minmax(1em, 1fr) [] repeat(2, [] 1rem [])` at font-size 20px, root 16px
+example : (gridTemplate exampleEnv (.tup [.strs ["a"], .dim 2 "em", .strs ["b"],
+      .tup [.kw "minmax()", .dim 1 "em", .dim 1 "fr"], .strs [],
+      .tup [.kw "repeat()", .num 2, .tup [.strs [], .dim 1 "rem", .strs []]], .strs []])).toOption =
+    some (.tup [.strs ["a"], .dim 40 "px", .strs ["b"],
+      .tup [.kw "minmax()", .dim 20 "px", .dim 1 "fr"], .strs [],
+      .tup [.kw "repeat()", .num 2, .tup [.strs [], .dim 16 "px", .strs []]], .strs []]) := by
+  decide +kernel
+example : (gridAuto exampleEnv (.tup [.tup [.kw "minmax()", .dim 1 "em", .kw "auto"], .dim 3 "rem"])).toOption =
+    some (.tup [.tup [.kw "minmax()", .dim 20 "px", .kw "auto"], .dim 48 "px"]) := by
   decide +kernel
 example : (borderImageSlice (.tup [.dim 10 "none", .dim 20 "%", .kw "fill"])).toOption =
     some (.tup [.num 10, .dim 20 "%", .num 10, .dim 20 "%", .kw "fill"]) := by decide +kernel
